@@ -33,7 +33,8 @@ QUOTE_CFGS = {
     "quick": ["MC_Quote_a3.cfg", "MC_Quote_b4.cfg"],
     "thorough": ["MC_Quote_a4.cfg"],
 }
-STATE_CFG = {"quick": "MC_ShellState_quick.cfg", "thorough": "MC_ShellState_thorough.cfg"}
+STATE_CFGS = {"quick": ["MC_ShellState_quick.cfg"],
+              "thorough": ["MC_ShellState_thorough.cfg", "MC_ShellState_rich.cfg"]}
 
 
 def _judge(module, trace_path, shards=8, timeout=2400, header=0):
@@ -210,22 +211,12 @@ def _state_violations(rep, bad, what):
                       {"part": "state", "c": rec.get("c", ""), "h": h})
 
 
-def _run_state(tier, wd, rep, ev):
-    cfg = STATE_CFG[tier]
-    gen = os.path.join(wd, "state.gen.ndjson")
-    r = vlib.tlc("MC_ShellState", cfg, workers=8, json_out=gen, timeout=2400, coverage=True)
-    vlib.tlc_must_pass(r, f"generator + design check Eval(Listing(st)) = st {cfg}")
-    vlib.log(f"[tlc] {cfg}: {r.distinct} abstract states (one history each), {r.generated} transitions, "
-             f"depth {r.depth}, ListingsOK holds, {r.wall:.1f}s")
-    trace = os.path.join(wd, "state.trace.ndjson")
-    vlib.run_harness(PKG, ["state", "--in", gen, "--out", trace])
-    n_gen = vlib.count_lines(trace) - 1
-    os.remove(gen)
-    # random histories with random strings, appended to the same trace (the
-    # base record, line 1, is the same deterministic run)
-    n = 300 if tier == "quick" else 8000
-    part = os.path.join(wd, "state.random.ndjson")
-    vlib.run_harness(PKG, ["state-random", "--n", n, "--maxops", 6 if tier == "quick" else 8, "--out", part])
+def _append_trace(trace, part):
+    """Append the records of `part` to `trace`; the base record (line 1) of
+    both is the same deterministic run."""
+    if not os.path.exists(trace):
+        os.rename(part, trace)
+        return
     with open(trace) as f:
         base = f.readline()
     with open(trace, "a") as out, open(part) as f:
@@ -234,6 +225,32 @@ def _run_state(tier, wd, rep, ev):
         for line in f:
             out.write(line)
     os.remove(part)
+
+
+def _run_state(tier, wd, rep, ev):
+    trace = os.path.join(wd, "state.trace.ndjson")
+    part = os.path.join(wd, "state.part.ndjson")
+    states = transitions = depth = 0
+    coverage = {}
+    for cfg in STATE_CFGS[tier]:
+        gen = os.path.join(wd, "state.gen.ndjson")
+        r = vlib.tlc("MC_ShellState", cfg, workers=8, json_out=gen, timeout=2400, coverage=True)
+        vlib.tlc_must_pass(r, f"generator + design check Eval(Listing(st)) = st {cfg}")
+        vlib.log(f"[tlc] {cfg}: {r.distinct} abstract states (one history each), {r.generated} transitions, "
+                 f"depth {r.depth}, ListingsOK holds, {r.wall:.1f}s")
+        states += r.distinct
+        transitions += r.generated
+        depth = max(depth, r.depth)
+        for a, c in r.coverage.items():
+            coverage[a] = coverage.get(a, 0) + c
+        vlib.run_harness(PKG, ["state", "--in", gen, "--out", part])
+        _append_trace(trace, part)
+        os.remove(gen)
+    n_gen = vlib.count_lines(trace) - 1
+    # random histories with random strings, appended to the same trace
+    n = 300 if tier == "quick" else 8000
+    vlib.run_harness(PKG, ["state-random", "--n", n, "--maxops", 6 if tier == "quick" else 8, "--out", part])
+    _append_trace(trace, part)
     bad, info = _judge("Trace_ShellState", trace, header=1, shards=4 if tier == "quick" else 8)
     vlib.log(f"[p2] {n_gen} generated + {n} random histories replayed on the real shell (10 printers x 2 ways of "
              f"evaluation), judged by Trace_ShellState in {info['wall']:.1f}s: {len(bad)} rejected observations, "
@@ -241,18 +258,33 @@ def _run_state(tier, wd, rep, ev):
     _state_violations(rep, bad, "history")
     samples = []
     own = 0
+    ops = {}
+    own_kinds = {}
     for i, rec in enumerate(vlib.read_ndjson(trace)):
         if i == 0:
             continue
         own += len(rec["fresh"])
+        for o in rec["h"]:
+            k = o["op"] + ("" if o["hv"] else ":novalue")
+            ops[k] = ops.get(k, 0) + 1
+        for o in rec["fresh"]:
+            own_kinds[o["kind"]] = own_kinds.get(o["kind"], 0) + 1
         if i in (700, 1100, n_gen + 5):
             samples.append({"history": _history_text(rec["h"]),
                             "printouts_differing_from_base_shell": sorted({o["kind"] for o in rec["fresh"]})})
     os.remove(trace)
     ev.update({"state_histories_generated": n_gen, "state_histories_random": n,
                "state_skipped": info["skip"], "state_rejected_observations": len(bad),
-               "state_printouts_evaluated_in_fresh_shell": own, "tlc_action_coverage": r.coverage})
-    return r.distinct, r.generated, n_gen + n, samples
+               "state_printouts_evaluated_in_fresh_shell": own, "tlc_action_coverage": coverage,
+               "state_history_depth": depth - 1, "operations_replayed": ops,
+               "printouts_evaluated_by_printer": own_kinds,
+               "operations_not_exercised": [k for k in ("assign", "array", "export", "export:novalue", "readonly",
+                                                        "readonly:novalue", "typeset", "typeset:novalue", "alias",
+                                                        "func", "opt", "opt:novalue", "trap", "trap:novalue", "umask")
+                                            if not ops.get(k)],
+               "printers_not_exercised": [k for k in ("alias", "export", "readonly", "typeset", "functions", "set",
+                                                      "options", "trap", "umask", "umaskS") if not own_kinds.get(k)]})
+    return states, transitions, n_gen + n, samples
 
 
 def run(tier):
@@ -260,6 +292,10 @@ def run(tier):
     wd = vlib.workdir(PID)
     rep = vlib.Reporter(PID)
     ev = {}
+    # calibration of the reader against the manual's and the conformance
+    # suite's worked examples (ASSUMEs): a failure is a tool error
+    r = vlib.tlc("Calib_Quote", "Calib_Quote.cfg", workers=1, timeout=600)
+    vlib.tlc_must_pass(r, "calibration of Quote.tla (Calib_Quote)")
     qs, qt, qn, qsamples = _run_quote(tier, wd, rep, ev)
     ss, st, sn, ssamples = _run_state(tier, wd, rep, ev)
     rc = rep.finish()
@@ -276,7 +312,7 @@ def run(tier):
         "exhaustive": True,
         "bounds": {"alphabet": 28, "max_len": 3 if tier == "quick" else 4,
                    "sub_alphabet_len4": 10 if tier == "quick" else 28,
-                   "random_string_max_len": 40, "history_depth": 3 if tier == "quick" else 5},
+                   "random_string_max_len": 40, "history_depth": ev.get("state_history_depth")},
         "known_findings_hit": {k: v[1] for k, v in rep.known_hits.items()},
     })
     vlib.write_evidence(PID, tier, ev, time.time() - t0, violations=len(rep.violations), assumptions=[
